@@ -27,7 +27,7 @@ def tasks(tier):
     for version in (1, 2):
         for a in range(3):
             ts.append(Task('verifHarness_C11_drain', [version, a]))
-    for api in range(6):
+    for api in range(9):
         ts.append(Task('verifHarness_C11_caller', [api]))
     return ts
 
@@ -40,7 +40,7 @@ def bounds(tier):
     return {'K1_dispatch': '3 channels with every membership subset + one foreign channel, every target; each queue with an arbitrary '
                            'fill level 0..64 (symbolic); map iteration order: every rotation',
             'K3_drain': 'queue of 3 items (message / frame mixes), v1 and v2 link',
-            'K4_caller': 'the six Write* entry points, one call each',
+            'K4_caller': 'the six Write* entry points, one call each (v2 frames), plus the three WriteFrame* with a v1 frame through the v2 node',
             'composition': 'ASSUMED, not checked: Go channels are FIFO and atomic; Node.channels is touched only by Node.run; one writer '
                            'goroutine per channel. Given those, K1-K4 yield exactly-once, isolation and per-submitter FIFO.'}
 
